@@ -1,5 +1,6 @@
 import Csproto.Props.C04
 import Csproto.Bridge.Templates
+import Csproto.Props.C04Ext
 /- axiom audit for C04 -/
 #print axioms Csproto.C04.size_exact
 #print axioms Csproto.C04.marshalTo_fills
@@ -12,3 +13,15 @@ import Csproto.Bridge.Templates
 #print axioms Csproto.Bridge.Templates.size_dispatch_total
 #print axioms Csproto.Bridge.Templates.marshal_dispatch_total
 #print axioms Csproto.Bridge.Templates.oneof_arms_total
+-- proto2 extensions inside the model (singular = explicit presence in the runtime's store, repeated = list)
+#print axioms Csproto.Ext.size_exact
+#print axioms Csproto.Ext.marshalTo_fills
+#print axioms Csproto.Ext.cleared_extension_emits_nothing
+#print axioms Csproto.Ext.never_set_extension_emits_nothing
+#print axioms Csproto.Ext.set_extension_always_emitted
+#print axioms Csproto.Ext.repeated_extension_one_record_per_element
+#print axioms Csproto.Ext.repeated_extension_size
+#print axioms Csproto.Ext.empty_repeated_extension_emits_nothing
+#print axioms Csproto.Ext.roundtrip
+#print axioms Csproto.Bridge.Templates.extension_arms_total
+#print axioms Csproto.Bridge.Templates.extension_repeated_arms
